@@ -740,3 +740,4 @@ RULES = [
 	('17.o', 'hand-written eq / cmp / partial_cmp / hash impls in this property\'s files: same field on both sides, reviewed direction, no reviewed key lost, hash within eq (rules/ordimpls.py)', lambda F: ordimpls.for_property(F, 'C17', '17.o')),
 ]
 RULES.append(('17.t', 'identity comparisons: every reviewed (function, identity type) == / != comparison (HTLCSource, Txid, OutPoint, ChannelId, PaymentHash, PublicKey, ...) is still made - a function does not silently change what it matches by (rules/provenance.py)', lambda F: provenance.ids_for_property(F, 'C17', '17.t')))
+RULES.append(('17.P', 'panic sites: no reviewed function that parses / handles untrusted input gained an unwrap / expect / explicit panic / bounds-checked index / length-checked copy / division (rules/provenance.py; panic freedom itself is not decided)', lambda F: provenance.panics_for_property(F, 'C17', '17.P')))
